@@ -151,6 +151,7 @@ class World:
         self.reinj = collections.defaultdict(list)    # dst -> [(src, mid, msg)]
         self.timers = []                              # [(comp name, period, cb)]
         self.events = []
+        self.lost = []
         self.mid = 0
         self._cur = None
         for node in self.cg.nodes:
@@ -205,6 +206,10 @@ class World:
         self.timers = [t for t in self.timers if t is not handle]
 
     def _sender(self, src, dst, msg, prio=None, on_error=None):
+        if dst not in self.comps:
+            # addressed to a computation that does not exist: it can never be delivered
+            self.lost.append((src, repr(dst), msg.type))
+            return
         self.mid += 1
         rec = {"id": self.mid, "dst": dst, "p": payload(msg)}
         if self.wire_mode:
